@@ -300,6 +300,11 @@ class Executor:
         ob.snapshot = (facts + list(V.GLOBAL_FACTS), q, b)
         self.deferred += 1
 
+    def unreachable_or_undecided(self, st, what, node=None):
+        """a construct outside the model was reached: if the path is provably infeasible nothing
+        happens; otherwise the contract is undecided (never a violation)"""
+        self.oblige(st, f"reach:{what}", "reach", z3.BoolVal(False), node, {"note": "path must be infeasible"})
+
     def activate(self, st):
         """context manager: make `st` the active path of the incremental solver (its fact
         lists must extend what is asserted at the current level)"""
